@@ -247,6 +247,30 @@ func Run(r *mc.Run) {
 		return true
 	})
 
+	// fields larger than the products above reach: many relations / alternatives / architectures / groups / stages
+	lg := gen.LargeDeps()
+	r.Scenario("large-fields", map[string]interface{}{"fields": len(lg), "sizes": "8..257 relations or alternatives, 5..33 architectures / profile groups / stages, long names and numbers", "renderings": "default spacing; one relation per folded line"}, len(lg), func(i int, st *mc.Stats) bool {
+		for _, via := range []string{"parse", "control", "control-reused"} {
+			for _, folded := range []bool{false, true} {
+				text := lg[i].Render()
+				if folded {
+					text = strings.ReplaceAll(text, ", ", ",\n ")
+				}
+				in := In{text, lg[i].Canon(), nil, via}
+				st.Evals++
+				st.Traces++
+				st.Nontrivial++
+				if v := checkDenotes("large-fields", in); v != nil {
+					st.Violate(v)
+					st.Class(v.Clause)
+				} else {
+					st.Class("structure-exact")
+				}
+			}
+		}
+		return true
+	})
+
 	// results held across calls: all ordered pairs of the <=2-possibility fields (and of the single shapes, thinned)
 	heldSet := gen.DepFields(reps, 2)
 	for i := 0; i < len(sh); i += r.Pick(97, 23) {
